@@ -155,6 +155,10 @@ def run(ctx, rep):
     rep.check(ok, 'R-C07-6', 'state_check_process: created-but-unfinished files are removed after bail (every exit path)', cleanup[0].loc() if cleanup else c.file, '', function='state_check_process', construct='cleanup created')
     rule_created_reset(P, rep, 'R-C07-6c')
     rule_finished_only_processed(P, rep, 'R-C07-6f')
+    # resumability after a kill rests on which hashes survive in the content: shared with C05/C06
+    from .C05 import hash_provenance_rules
+    from .C06 import blk_value
+    hash_provenance_rules(P, rep, 'R-C07-3p', blk_value(P))
     sc = P.fn('state_check')
     rep.analysed(sc)
     pt = list(sc.calls('parity_truncate'))
